@@ -426,6 +426,7 @@ func checkC03(c *Ctx) {
 	ruleR12(c, dv, modes, "R3.3b")
 	ruleR13(c, dv, "R3.3c")
 	ruleCounterInit(c, dv, "R3.3d")
+	c.importRules(transportRules, []string{"R15.1", "R15.2"}, "R3.6") // the per-mode emission must arrive as emitted: relays forward every message exactly once, unaltered
 	ruleR16(c, dv, modes, "R3.5")
 	c.MinCount("R3.1", 6)
 	c.MinCount("R3.2", 7)
